@@ -1012,11 +1012,16 @@ def flatten(x:Tensor, start_dim:int=0, end_dim:int=-1) -> 'Tensor':
         raise TypeError(f"Expected x to be a Tensor but got {type(x)}")
     
     shape = x.shape
-    start = start_dim if start_dim != -1 else len(shape)
-    end = end_dim if end_dim != -1 else len(shape)
+    ndim = len(shape) if len(shape) > 0 else 1 # a 0-d tensor is flattened as if it had one dimension
+    if not (-ndim <= start_dim < ndim and -ndim <= end_dim < ndim):
+        raise IndexError(f"Dimension out of range (expected to be in range of [{-ndim}, {ndim-1}], but got {start_dim}, {end_dim})")
+    start = start_dim + ndim if start_dim < 0 else start_dim
+    end = end_dim + ndim if end_dim < 0 else end_dim
     if start > end:
         raise RuntimeError("flatten() has invalid args: start_dim cannot come after end_dim")
-    if start < end:
+    if len(shape) == 0:
+        shape = (1,)
+    elif start < end:
         shape = shape[:start] + (-1,) + shape[end+1:]
     
     if x.device == Device.CPU:
